@@ -272,6 +272,18 @@ pub open spec fn tv_filtered<K, V, F: FnMut(&K, &mut V) -> bool>(f: F, a: TV<(K,
     &&& forall|i: int| #[trigger] b.items.contains_key(i) && !todo.contains(i) ==>
             if a.items.contains_key(i) { answered(f, b.items[i], a.items[i].1, keep) } else { gone(f, b.items[i], !keep) }
 }
+/// one `DrainFilterInner::next` call: the slots the cursor passed in this call (`before` minus `after`) and that are still
+/// there were shown to `f`, which answered `false` and left the value they hold now; every other slot is untouched
+#[verifier::prophetic]
+pub open spec fn tv_stepped<K, V, F: FnMut(&K, &mut V) -> bool>(f: F, a: TV<(K, V)>, b: TV<(K, V)>, before: Set<int>, after: Set<int>) -> bool {
+    &&& a.items.dom().subset_of(b.items.dom())
+    &&& forall|i: int| #[trigger] a.items.contains_key(i) ==> a.hashes[i] == b.hashes[i] && a.items[i].0 == b.items[i].0
+    &&& forall|i: int| #[trigger] b.items.contains_key(i) && !(before.contains(i) && !after.contains(i)) ==> a.items.contains_key(i) && a.items[i] == b.items[i]
+    &&& forall|i: int| #[trigger] a.items.contains_key(i) && before.contains(i) && !after.contains(i) ==> answered(f, b.items[i], a.items[i].1, false)
+}
+impl<T> RawIter<T> {
+    pub open spec fn old_remaining(&self) -> Set<int> { match self.leftovers { Some(li) => li@.remaining, None => Set::<int>::empty() } }
+}
 #[verifier::prophetic]
 pub open spec fn raw_filtered<K, V, F: FnMut(&K, &mut V) -> bool>(f: F, a: RawTable<(K, V)>, b: RawTable<(K, V)>, it: RawIter<(K, V)>, keep: bool) -> bool {
     &&& tv_filtered(f, a.table@, b.table@, it.table@.remaining, keep)
